@@ -8,10 +8,14 @@ trailing run), the model of `ParseFlowDesc` returns exactly the filter the rule 
 `parse_total`: every string is either rejected or parsed — no fault (the model is a total function over all strings;
 the Go side is run on arbitrary byte strings by the correspondence stream).
 `pack_unpack`: the port words `lo << 16 | hi` decode back to the ranges.
+`packed_decodes`: for every rule, spelling and spacing, the attribute list `newFlowDesc` hands to the data plane, read
+by the independent reader of the gtp5g rule format, is the filter the rule denotes — with source and destination
+(addresses, masks and port lists) exchanged for uplink PDRs.
 -/
 import UpfVerif.Model.FlowDesc
 import UpfVerif.Lemmas.FlowDesc
 import UpfVerif.Spec.IPFilterRule
+import UpfVerif.Props.C02
 
 set_option maxRecDepth 16384
 
@@ -463,6 +467,44 @@ theorem pack_unpack (ps : List (List Nat))
   rcases h p hp with ⟨a, rfl, ha⟩ | ⟨a, b, rfl, ha, hb⟩
   · simp only [Function.comp, portWord, portPair, Prod.mk.injEq]; constructor <;> omega
   · simp only [Function.comp, portWord, portPair, Prod.mk.injEq]; constructor <;> omega
+
+theorem portsOk_denote (ps : List PortItem) (h : ∀ p ∈ ps, p.WF) : C02.PortsOk (ps.map PortItem.denote) := by
+  intro p hp
+  obtain ⟨q, hq, rfl⟩ := List.mem_map.mp hp
+  have := h q hq
+  cases q with
+  | one a => exact Or.inl ⟨a.val, rfl, this⟩
+  | range lo hi => exact Or.inr ⟨lo.val, hi.val, rfl, this.1, this.2⟩
+
+/-- **C16, the packing half**: the packed form handed to the data plane decodes back to the filter the rule denotes,
+    source and destination exchanged for uplink PDRs -/
+theorem packed_decodes (r : Rule) (wf : r.WF) (lead : Str) (seps : List Str) (hlead : allSpace lead)
+    (hlen : r.tokens.length = seps.length) (hseps : WFSeps seps) (uplink : Bool) :
+    (parseFlowDesc (lead ++ joinToks (r.tokens.zip seps))).map
+        (fun f => Gtp5gRead.readFlow (Xlate.flowDescAttrs f uplink)) =
+      some (Rules.expectFlow r.denote uplink) := by
+  rw [parse_render r wf lead seps hlead hlen hseps]
+  simp only [Option.map_some, Option.some.injEq]
+  apply C02.readFlow_flowDescAttrs
+  · exact portsOk_denote _ wf.2.1
+  · exact portsOk_denote _ wf.2.2
+  · show r.protoVal < 256
+    unfold Rule.protoVal
+    cases h : r.proto with
+    | none => decide
+    | some n => exact wf.1 n h
+
+/-- what "exchanged" means, spelled out on the reader's view: the uplink view is the downlink view with the two sides swapped -/
+theorem uplink_is_swap (f : FlowDesc) :
+    (Rules.expectFlow f true).srcIp = (Rules.expectFlow f false).dstIp ∧
+    (Rules.expectFlow f true).dstIp = (Rules.expectFlow f false).srcIp ∧
+    (Rules.expectFlow f true).srcMask = (Rules.expectFlow f false).dstMask ∧
+    (Rules.expectFlow f true).dstMask = (Rules.expectFlow f false).srcMask ∧
+    (Rules.expectFlow f true).srcPorts = (Rules.expectFlow f false).dstPorts ∧
+    (Rules.expectFlow f true).dstPorts = (Rules.expectFlow f false).srcPorts ∧
+    (Rules.expectFlow f true).proto = (Rules.expectFlow f false).proto ∧
+    (Rules.expectFlow f true).direction = (Rules.expectFlow f false).direction := by
+  simp [Rules.expectFlow]
 
 /-! ### non-vacuity: a concrete rule with odd spacing, a leading zero and a range -/
 example : parseFlowDesc " permit\tout 017  from 10.1.2.0/24 80,1000-2000 to assigned\n".toList =
